@@ -24,6 +24,9 @@ from .simplecmd import CommandError, cmd
 
 LOG = logging.getLogger(__name__)
 
+# Branch namespaces the robot is allowed to delete.
+OWNED_PREFIXES = ('w/', 'q/', 'tmp/')
+
 
 class Repository(object):
     def __init__(self, url, mask_pwd=''):
@@ -153,11 +156,32 @@ class Repository(object):
             raise PushFailedException(name) from err
 
     def push_all(self, prune=False):
-        prune = '--prune' if prune else ''
+        refspecs = ["'refs/heads/*:refs/heads/*'"]
+        if prune:
+            # `git push --prune` would delete every branch that somebody
+            # created on the remote since this clone was made. Only
+            # propagate the deletions made in this clone, and only in the
+            # namespaces owned by the robot (see Branch.remove).
+            refspecs.extend("':refs/heads/%s'" % name
+                            for name in self._locally_deleted_branches())
         try:
-            self.cmd('git push --all --atomic %s' % prune)
+            self.cmd('git push --atomic origin %s' % ' '.join(refspecs))
         except CommandError as err:
             raise PushFailedException(err) from err
+
+    def _locally_deleted_branches(self):
+        """Robot-owned branches known on the remote but deleted locally."""
+        fmt = "git for-each-ref --format='%%(refname)' %s"
+        local = set(
+            ref[len('refs/heads/'):]
+            for ref in self.cmd(fmt, 'refs/heads').splitlines())
+        tracked = [
+            ref[len('refs/remotes/origin/'):]
+            for ref in self.cmd(fmt, 'refs/remotes/origin').splitlines()]
+        self._get_remote_branches(force=True)
+        return [name for name in tracked
+                if name.startswith(OWNED_PREFIXES) and
+                name not in local and name in self._remote_branches]
 
     def cmd(self, command, *args, **kwargs):
         retry = kwargs.pop('retry', 0)
